@@ -205,4 +205,30 @@ def run_unit(unit, rec):
             if dev > tol_e:
                 _v(rec, "e", dict(sig, what="in-gamut-not-reproduced"), "in-gamut target (margin %.3g) not reproduced by the %s model (max deviation %.4g)" % (mg[idx], model, dev), case,
                    observed=q, expected=t, script=_script(spec, t, model))
+    if unit.get("in_gamut_only"):
+        # two routes, one answer: targets registered together with per-sample weights and fitted by the estimator vs. the module-level
+        # routine called with the registered values (also for out-of-gamut targets, without any assumption about the weighted objective)
+        import copy
+        from dreye.api.optimize.lsq_linear import lsq_linear_excitation
+
+        fpo = O.zono_facet_points(Abar, c0, lo, hi)
+        Tm = np.array([T[0][1], np.maximum(fpo[0][0] + 0.2 * ext * fpo[0][1], 0.05), np.maximum(fpo[-1][0] + 0.3 * ext * fpo[-1][1], 0.05)])
+        Wreg = np.array([np.roll(np.array([3.0, 0.4, 1.5][:m]), k_) for k_ in range(len(Tm))])
+        rec.path()
+        rec.trans(3)
+        try:
+            est_r = copy.deepcopy(est)
+            est_r.register_targets(Tm, Wreg)
+            est_r.fit(model="excitation")
+            X_est = np.asarray(est_r.X, dtype=float)
+            Kq, bq = B.arr(spec["K"]), B.arr(spec["baseline"])
+            X_mod = np.asarray(lsq_linear_excitation(np.array(spec["A"]), Tm, lb=B.arr(spec["lb"]), ub=B.arr(spec["ub"]), W=Wreg, K=(None if Kq is None else np.atleast_1d(Kq)),
+                                                     baseline=(None if bq is None else np.atleast_1d(bq))), dtype=float)
+            same = X_est.shape == X_mod.shape and float(np.max(np.abs(X_est - X_mod))) <= 1e-6
+            rec.outcome("excitation-registered-weights/%s" % ("same-as-module-route" if same else "differs"))
+            if not same:
+                _v(rec, "c", dict(base, target="registered-weights", what="route-consistency"), "fit(model='excitation') of targets registered with per-sample weights differs from lsq_linear_excitation called with the registered values (max dev %.4g)" % float(np.max(np.abs(X_est - X_mod))),
+                   dict(targets=len(Tm)), observed=X_est, expected=X_mod)
+        except Exception as e:  # noqa
+            _v(rec, "a", dict(base, target="registered-weights", **exc_sig(e)), "excitation fit of registered weighted targets raised %r" % (e,), dict(targets=3))
     rec.sample(dict(system=names, model=model, targets=len(T), example=dict(target=T[0][1], X=X[0])), cap=1)
